@@ -1,6 +1,6 @@
 """Per-property suites of the correspondence check (which harness runs, which Coq predicate)."""
 
-REPO_HEADER = "From GK Require Import PropCheck.\nOpen Scope string_scope.\nOpen Scope Z_scope."
+REPO_HEADER = "From GK Require Import PropCheck.\nOpen Scope string_scope.\nOpen Scope list_scope.\nOpen Scope Z_scope."
 
 
 def repo_suite(name, impl, mode, pred, quick, thorough, length=40, extra=None, cfg=None):
@@ -10,7 +10,8 @@ def repo_suite(name, impl, mode, pred, quick, thorough, length=40, extra=None, c
         "cfg": cfg, "header": REPO_HEADER.replace("PropCheck", "Findings"), "hist_type": "hist",
         "eval": "Definition M := Eval vm_compute in mismatches %s cases.\nPrint M.\n"
                 "Definition V := Eval vm_compute in violations %s %s cases.\nPrint V." % (cfg, pred, cfg),
-        "diag": "Eval vm_compute in expect_at %s h {i}." % cfg,
+        "diag": "Eval vm_compute in expect_at %s (nth {k} cases []) {i}." % cfg,
+        "sig": "{sig} %s (nth {k} cases []) {i}" % cfg,
         "quick": quick, "thorough": thorough,
     }
 
@@ -21,9 +22,28 @@ def snap_suite(name, quick, thorough, length=50):
         "cfg": "cfg_inmem", "header": REPO_HEADER, "hist_type": "snapcase",
         "eval": "Definition M := Eval vm_compute in snap_mismatches_from cfg_inmem cases 0.\nPrint M.\n"
                 "Definition V := Eval vm_compute in snap_violations_from cases 0.\nPrint V.",
-        "diag": "Eval vm_compute in (snap_mismatch cfg_inmem h, lockstep (sn_a h) (sn_b h) 0, "
+        "diag": "Definition h := nth {k} cases (mkSnap [] [] []).\n"
+                "Eval vm_compute in (snap_mismatch cfg_inmem h, lockstep (sn_a h) (sn_b h) 0, "
                 "expect_at cfg_inmem (sn_pre h ++ sn_a h) ({i} mod 1000), "
                 "nth_error (sn_b h) ({i} mod 1000 - List.length (sn_pre h))).",
+        "sig": "false",
+        "quick": quick, "thorough": thorough,
+    }
+
+
+MUT_HEADER = "From GK Require Import Mutator.\nOpen Scope string_scope.\nOpen Scope list_scope.\nOpen Scope Z_scope."
+
+
+def mut_suite(name, quick, thorough):
+    return {
+        "name": name, "cmd": ["mut"], "header": MUT_HEADER, "hist_type": "mcase",
+        "eval": "Definition M := Eval vm_compute in (mut_mismatches cases 0 ++ add_mismatches acases 0).\nPrint M.\n"
+                "Definition V := Eval vm_compute in mut_violations cases 0.\nPrint V.",
+        "diag": "Eval vm_compute in (if Nat.eqb {i} 1 then None else nth_error cases {k}, if Nat.eqb {i} 1 then nth_error acases {k} else None).",
+        "show": "Eval vm_compute in (load_mutators (mc_meta (nth {k} cases (mkMC [] (mkPO None None) (mkPO None None) tzero u_empty MPanic))) "
+                "(mc_omax (nth {k} cases (mkMC [] (mkPO None None) (mkPO None None) tzero u_empty MPanic))) "
+                "(mc_omin (nth {k} cases (mkMC [] (mkPO None None) (mkPO None None) tzero u_empty MPanic)))).",
+        "sig": "false",
         "quick": quick, "thorough": thorough,
     }
 
@@ -53,6 +73,9 @@ SUITES = {
         repo_suite("c19-inmem", "inmem", "c01", "p_C19", {"n": 20, "shards": 6}, {"n": 150, "shards": 16}, extra=["--scribble"]),
         repo_suite("c19-ent", "ent", "c13", "p_C19", {"n": 15, "shards": 6}, {"n": 100, "shards": 16}, extra=["--scribble"]),
     ]},
+    "C18": {"suites": [
+        mut_suite("c18-mut", {"n": 400, "shards": 8}, {"n": 3000, "shards": 16}),
+    ], "rule": "metadata maps over a pool of duration strings (empty, garbage, ints, durations, negative, zero, equal, swapped, extreme), original times, PRNG / all-zero random source, executed under recover; distinct = distinct sha1 of the printed case (all are non-trivial: each has its own metadata/oracle)"},
     "C12": {"suites": [
         repo_suite("c12-inmem", "inmem", "c01", "p_C12", {"n": 25, "shards": 7}, {"n": 200, "shards": 16}),
         repo_suite("c12-ent", "ent", "c13", "p_C12", {"n": 20, "shards": 7}, {"n": 150, "shards": 16}),
@@ -67,6 +90,7 @@ PROP_FILES = {
     "C13": ["Props/C13.v"],
     "C14": ["Props/C14.v"],
     "C19": ["Props/C19.v"],
+    "C18": ["Props/C18.v"],
 }
 
 TRUSTED_BASE = [
